@@ -7,7 +7,7 @@
    (cpu, memory, gpu), what a job counts for in its queue is
 
        counted_j d = a + inq - elastic      a       = requests of its pods in an allocated status
-                                            inq     = max (min_j d - a, 0) when minResources lists d and the
+                                            inq     = max (max (min_j d - a, 0) - gated_j d, 0) when minResources lists d and the
                                                       PodGroup is Inqueue (or Running with >= minMember pods allocated)
                                             elastic = max (a - min_j d, 0)   (min_j d = 0 when not listed / no minResources)
 
@@ -29,7 +29,9 @@ Record ejob := mkEJ {
   ej_queue : Z; ej_before : Z; ej_after : Z;          (* phases: 1 Pending 2 Inqueue 3 Running *)
   ej_min : option (list (option Z));                  (* minResources: per dimension, None = not listed *)
   ej_member : Z; ej_anum : Z; ej_alloc : list Z;      (* minMember, #pods allocated, their requests *)
-  ej_vote : Z }.                                      (* 0 false, 1 true, 2 not asked *)
+  ej_vote : Z;                                        (* JobEnqueueable: 0 false, 1 true, 2 not asked *)
+  ej_gated : list Z;                                  (* requests of the job's scheduling-gated pods *)
+  ej_avote : Z }.                                     (* Allocatable(queue, a pending pod): 0 / 1 / 2 *)
 
 Definition dims : list nat := [0%nat; 1%nat; 2%nat].
 
@@ -40,7 +42,11 @@ Definition counted (phase : Z) (j : ejob) (d : nat) : Z :=
   let a := nth d (ej_alloc j) 0 in
   let m0 := match min_at j d with Some v => v | None => 0 end in
   let reserves := (phase =? 2) || ((phase =? 3) && (ej_member j <=? ej_anum j)) in
-  let inq := match min_at j d with Some v => if reserves then Z.max (v - a) 0 else 0 | None => 0 end in
+  (* what an admitted PodGroup RESERVES is reduced by the requests of its scheduling-gated pods
+     (JobInfo.DeductSchGatedResources, in OnSessionOpen and in JobEnqueuedFn); the VOTE for a
+     PodGroup is on its full minResources *)
+  let g := nth d (ej_gated j) 0 in
+  let inq := match min_at j d with Some v => if reserves then Z.max (Z.max (v - a) 0 - g) 0 else 0 | None => 0 end in
   a + inq - Z.max (a - m0) 0.
 
 Definition find_queue (qs : list equeue) (id : Z) : option equeue :=
@@ -88,6 +94,9 @@ Definition open_leaf (hier : bool) (qs : list equeue) (q : Z) : bool :=
 
 Definition law_enqueue (kind : Z) (qs : list equeue) (js : list ejob) : bool :=
   let hier := kind =? 2 in
+  (* placement vote: Allocatable = true only for an Open queue that has no child queue at all
+     (leafness computed from the Queue objects' parents, whatever the children's state) *)
+  forallb (fun j => negb (ej_avote j =? 1) || open_leaf hier qs (ej_queue j)) js &&
   forallb (fun j =>
     match ej_min j with
     | None => true
@@ -123,10 +132,12 @@ Fixpoint dec_jobs (n : nat) (l : list Z) : option (list ejob * list Z) :=
   match n with
   | O => Some ([], l)
   | S k => match l with
-           | _id :: q :: pb :: pa :: hasmin :: mask :: m0 :: m1 :: m2 :: mem :: an :: a0 :: a1 :: a2 :: vote :: r =>
+           | _id :: q :: pb :: pa :: hasmin :: mask :: m0 :: m1 :: m2 :: mem :: an :: a0 :: a1 :: a2 :: vote ::
+             g0 :: g1 :: g2 :: avote :: r =>
              match dec_jobs k r with
              | Some (js, r') =>
-               Some (mkEJ q pb pa (if hasmin =? 0 then None else Some (masked mask [m0; m1; m2])) mem an [a0; a1; a2] vote :: js, r')
+               Some (mkEJ q pb pa (if hasmin =? 0 then None else Some (masked mask [m0; m1; m2])) mem an [a0; a1; a2] vote
+                          [g0; g1; g2] avote :: js, r')
              | None => None end
            | _ => None end
   end.
@@ -146,13 +157,10 @@ Definition law_enqueue_toks (toks : list Z) : option bool :=
   end.
 
 (* an admitted PodGroup counts for exactly its minResources, whether or not its pods exist *)
-Lemma counted_inqueue (j : ejob) (d : nat) (m : Z) :
-  min_at j d = Some m -> 0 <= nth d (ej_alloc j) 0 -> counted 2 j d = Z.max m (nth d (ej_alloc j) 0) - Z.max (nth d (ej_alloc j) 0 - m) 0.
-Proof. intros Hm Ha. unfold counted. rewrite Hm. simpl. lia. Qed.
-
+(* without scheduling-gated pods an admitted PodGroup counts for exactly its minResources *)
 Lemma counted_inqueue_is_min (j : ejob) (d : nat) (m : Z) :
-  min_at j d = Some m -> 0 <= nth d (ej_alloc j) 0 -> counted 2 j d = m.
-Proof. intros Hm Ha. rewrite (counted_inqueue j d m Hm Ha). lia. Qed.
+  min_at j d = Some m -> 0 <= nth d (ej_alloc j) 0 -> nth d (ej_gated j) 0 = 0 -> counted 2 j d = m.
+Proof. intros Hm Ha Hg. unfold counted. rewrite Hm, Hg. simpl. lia. Qed.
 
 (* a job without minResources (or a dimension its minResources do not list) counts for nothing:
    all of its allocation is "elastic" for the enqueue vote *)
